@@ -6,6 +6,7 @@ import (
 	"crypto/sha256"
 	"encoding/hex"
 	"encoding/json"
+	"errors"
 	"fmt"
 	"net/http"
 	"sync"
@@ -180,6 +181,9 @@ func (c *LRUCache) Set(key string, value interface{}, ttl time.Duration) error {
 
 	// Calculate entry size (rough estimate)
 	size := estimateSize(value)
+	if !c.fits(key, size) {
+		return ErrEntryTooLarge
+	}
 
 	var expiresAt time.Time
 	if ttl > 0 {
@@ -202,6 +206,7 @@ func (c *LRUCache) Set(key string, value interface{}, ttl time.Duration) error {
 		c.currentSize -= oldEntry.Size
 		c.currentSize += size
 		elem.Value = entry
+		c.shrinkToMaxSize()
 		atomic.AddUint64(&c.stats.Sets, 1)
 		return nil
 	}
@@ -231,6 +236,9 @@ func (c *LRUCache) SetWithTags(key string, value interface{}, ttl time.Duration,
 	}
 
 	size := estimateSize(value)
+	if !c.fits(key, size) {
+		return ErrEntryTooLarge
+	}
 
 	var expiresAt time.Time
 	if ttl > 0 {
@@ -253,6 +261,7 @@ func (c *LRUCache) SetWithTags(key string, value interface{}, ttl time.Duration,
 		c.currentSize -= oldEntry.Size
 		c.currentSize += size
 		elem.Value = entry
+		c.shrinkToMaxSize()
 		return nil
 	}
 
@@ -339,6 +348,31 @@ func (c *LRUCache) Stats() Stats {
 		Size:       c.currentSize,
 		MaxSize:    c.maxSize,
 		EntryCount: int64(c.evictList.Len()),
+	}
+}
+
+// ErrEntryTooLarge is returned when a value can never fit within the
+// configured capacity or maximum size.
+var ErrEntryTooLarge = errors.New("cache: entry exceeds the configured cache limits")
+
+// fits reports whether an entry of the given size can ever be stored.
+// Must be called with the lock held. If it cannot, any previous entry for the
+// key is dropped so that a stale value is not served in its place.
+func (c *LRUCache) fits(key string, size int64) bool {
+	if c.capacity > 0 && (c.maxSize <= 0 || size <= c.maxSize) {
+		return true
+	}
+	if elem, ok := c.items[key]; ok {
+		c.removeElement(elem)
+	}
+	return false
+}
+
+// shrinkToMaxSize evicts least recently used entries until the size limit
+// holds again (used after an entry was replaced in place by a larger value).
+func (c *LRUCache) shrinkToMaxSize() {
+	for c.maxSize > 0 && c.currentSize > c.maxSize && c.evictList.Len() > 1 {
+		c.evictOldest()
 	}
 }
 
